@@ -80,7 +80,7 @@ def undo_private_renames(model) -> Dict[str, str]:
     return renames
 
 
-def local_shape(fnode) -> Tuple[str, List[str]]:
+def local_shape(fnode) -> Tuple[str, Optional[List[str]]]:
     """(digest, locals in order of first occurrence) of a function with its LOCAL names abstracted: two functions that differ only by a
     consistent renaming of locals (names bound in the function that are neither parameters nor declared global / nonlocal) have the same
     digest.  Nested functions and lambdas keep their own scopes: a function containing one is not abstracted (digest of the plain dump)."""
@@ -89,7 +89,7 @@ def local_shape(fnode) -> Tuple[str, List[str]]:
     if node.body and isinstance(node.body[0], ast.Expr) and isinstance(node.body[0].value, ast.Constant) and isinstance(node.body[0].value.value, str):
         node.body = node.body[1:] or [ast.Pass()]
     if any(isinstance(n, (ast.FunctionDef, ast.AsyncFunctionDef, ast.Lambda, ast.ClassDef)) and n is not node for n in ast.walk(node)):
-        return hashlib.sha256(ast.dump(node).encode()).hexdigest()[:16], []
+        return hashlib.sha256(ast.dump(node).encode()).hexdigest()[:16], None         # not abstracted: no local names recorded
     a = node.args
     params = {x.arg for x in a.posonlyargs + a.args + a.kwonlyargs} | ({a.vararg.arg} if a.vararg else set()) | ({a.kwarg.arg} if a.kwarg else set())
     decl = {nm for n in ast.walk(node) if isinstance(n, (ast.Global, ast.Nonlocal)) for nm in n.names}
@@ -142,7 +142,7 @@ def undo_local_renames(model) -> int:
         if not r:
             continue
         dg, order = local_shape(fn.node)
-        if dg != r[0] or order == r[1] or len(order) != len(r[1]) or len(set(r[1])) != len(r[1]):
+        if order is None or r[1] is None or dg != r[0] or order == r[1] or len(order) != len(r[1]) or len(set(r[1])) != len(r[1]):
             continue
         ren = dict(zip(order, r[1]))
         # two-step renaming (a -> b while b -> c)
@@ -2555,6 +2555,10 @@ def flatten_model(model) -> Optional[Flattener]:
     fl.return_temps = 0
     for f in funcs:
         r_ = _shapes.get('%s::%s' % (f.path, f.qualname))
+        # a function with nested functions / lambdas has no recorded local names (local_shape does not abstract it): left alone
+        if r_ and (r_[1] is None or any(isinstance(n_, (ast.FunctionDef, ast.AsyncFunctionDef, ast.Lambda, ast.ClassDef)) and n_ is not f.node
+                                        for n_ in ast.walk(f.node))):
+            r_ = None
         fl.return_temps += normalise_return_temps(f, set(r_[1]) if r_ else None)
         fl.return_temps += normalise_single_use_temps(f, set(r_[1]) if r_ else None)
     fl.else_after_exit = run(normalise_else_after_exit)
